@@ -105,3 +105,17 @@ def negative_controls(ctx, traces, verdicts):
   v = ringsys.judge(ctx, [a, b], 'negative controls')
   ctx.negative_control('duplicate destination injected into an observation', bool(v[0] & {'dup', 'route', 'count'}))
   ctx.negative_control('ring entry displaced by one', 'ring' in v[1])
+
+
+def manager_routes(ctx):
+  """the routes the relay APPLIES (CarbonClientManager on top of the router) while destinations come and go under the
+  dynamic router: nothing is routed to a destination that is not configured, nothing goes nowhere while one is
+  (clause `misrouted` of Relay_Trace.tla; the ring itself is judged above)"""
+  from . import relaysys, relaycheck
+  rm = relaysys.RelayModules(ctx.scratch)
+  for ci, cfg in enumerate([dict(nd=3, maxq=8, mpm=2, flow=True, dynamic=True, max_retries=1, nr=1, rf=2),
+                            dict(nd=2, maxq=8, mpm=3, flow=False, dynamic=True, max_retries=1, nr=1)][:ctx.pick(1, 2)]):
+    consts, traces, origins = relaycheck.run_traces(ctx, rm, cfg, nsim=ctx.pick(5, 40), nrandom=ctx.pick(40, 300), nevents=ctx.pick(40, 80),
+                                                    seed_base=ctx.seed + 300 + ci)
+    verdicts = relaycheck.judge(ctx, consts, traces, 'manager routes cfg %d' % ci)
+    relaycheck.report(ctx, traces, origins, verdicts, {'misrouted'})
